@@ -40,7 +40,7 @@ func c33(r *core.Run) {
 		"(only map/set inserts and deletes, commutative accumulation, constant-returning search, or collection into slices that are sorted afterwards in the same function), or is one of the reviewed loops (one reason each); " +
 		"comments such as //nolint:maprange are not trusted; (R2) goroutine starts, select statements, sync.Map.Range and the nondeterministic library sources (time.Now, math/rand, crypto/rand, maps.Keys/Values, …) occur only in the reviewed functions (tracing, metrics, coverage, storage-commit worker count); " +
 		"(R3) commit order: Storage.commit takes atree's deterministic FastCommit exactly when its `deterministic` parameter is true, every caller except the deprecated NondeterministicCommit passes the constant true, " +
-		"AccountStorage.commit writes more than one pending index only from the sorted slice, and contract updates are written by iterating an ordered map."
+		"AccountStorage.commit writes more than one pending index only from the sorted slice, and contract updates are written by iterating an ordered map; (R4) pool objects are cleared before Put and the CCF scratch buffer is released only by a deferred call (its bytes are still referenced until the encoder returns, so an early release makes concurrent encodings schedule-dependent)."
 	r.NotDecided = "byte equality of whole runs; atree's parallel slab encoder (external module); map iteration inside dependencies."
 	w := r.W
 	mapRangeRule(r, "R1.maprange", execPkgs)
@@ -200,6 +200,10 @@ func c33(r *core.Run) {
 		r.Check(!mapRange, "R3.commitorder", "runtime.(Storage).commitContractUpdates", fd.Pos(), "iterates the ordered map of contract updates (no Go map range)", "contract updates are written while ranging over a Go map")
 	}
 	r.Floor("R3.commitorder", 5)
+
+	// R4 pooled scratch objects cannot leak one encoder's bytes into another's output (schedule-dependent results)
+	poolReleaseDiscipline(r, "R4.pools")
+	r.Floor("R4.pools", 3)
 }
 
 // clockEscapes follows a wall-clock value (time.Time or time.Duration): it may only be spilled to local cells,
